@@ -44,6 +44,7 @@ def gen_case(rng):
     opts = dict(base=rng.choice([None, None, "http://example.org/", "http://example.org/a/b"]), bn=rng.choice(["none", "core", "rdflib"]),
                 binds=rng.sample([["e", "http://example.org/"], ["ea", "http://example.org/a/"], ["ns", "http://example.org/ns#"], ["", "http://example.org/ns#"], ["u", "urn:e:"],
                                   ["eab", "http://example.org/ab"], ["rdfs", "http://www.w3.org/2000/01/rdf-schema#"]], rng.randrange(0, 4)))
+    if fmt == "longturtle" and rng.random() < 0.4: opts["canon"] = True
     return dict(kind="rt", fmt=fmt, triples=[enc_t(t) for t in triples], opts=opts, classes=sorted(cls))
 
 
@@ -148,7 +149,8 @@ def run_case(case, st=None):
     before = {tkey(t) for t in g}
     kw = {}
     if o["base"]: kw["base"] = o["base"]
-    status, res, steps = run_budgeted(lambda: g.serialize(format=fmt, **kw), len(triples))
+    if o.get("canon") and fmt == "longturtle": kw["canon"] = True     # long Turtle's canonical-order option
+    status, res, steps = run_budgeted(lambda: g.serialize(format=fmt, **kw), len(triples) * (3 if kw.get("canon") else 1))
     st["serialize:" + fmt] = st.get("serialize:" + fmt, 0) + 1
     st.setdefault("_count", {})["max_steps_per_triple_x100"] = 0
     if status == "budget":
